@@ -595,4 +595,87 @@ example : let df : Frame := { idx := [1, 2, 3, 4], cols := [("", [some 1, Option
     (FillAlias.call true [.ffill0] Option.none df).toOption.map (fun s => (FillAlias.cur s).cols) =
       some [("", [some 1, some 1, some 3, some 0])] := by decide
 
+section NonaStore
+open Pyg.FillAlias
+
+/-! ### "the input object is not modified" for `nona` (reviews t4 / v4: the store model covered `_df_fillna` only)
+
+`FillAlias.nonaPd` / `nonaArrS`: `_nona` on a store whose cells record whose buffer they share (a numpy basic slice is a view). -/
+
+/-- **nona_input_not_modified** (Series / DataFrame, every `edge`): the caller's object (cell 0) holds what it held, nothing was
+written, the object returned is NOT the caller's object and shares no buffer with it (`aliasesInput`: following the view links
+from the returned cell never reaches cell 0), and it holds exactly the pure model's `nona edge f` (the two fail together) -/
+theorem nona_input_not_modified (edge : Option Int) (f : Frame) (s : NStore Frame) (h : nonaPd edge f = .ok s) :
+    s.cells[0]? = some ⟨f, Option.none⟩ ∧ s.writes = [] ∧ s.ret ≠ 0 ∧ s.aliasesInput = false ∧
+      (nona edge f).toOption = s.result := by
+  unfold nonaPd at h
+  cases edge with
+  | none =>
+    simp only at h
+    cases h
+    simp [NStore.alloc, NStore.aliasesInput, reachesInput, NStore.result, nona, Except.toOption]
+  | some e =>
+    simp only at h
+    split at h
+    · cases h
+      rename_i he
+      simp [NStore.alloc, NStore.aliasesInput, reachesInput, NStore.result, nona, Except.toOption, he]
+    · split at h
+      · cases h
+        rename_i he he1
+        simp [NStore.alloc, NStore.aliasesInput, reachesInput, NStore.result, nona, Except.toOption, he, he1]
+      · split at h
+        · cases h
+          rename_i he he1 he2
+          simp [NStore.alloc, NStore.aliasesInput, reachesInput, NStore.result, nona, Except.toOption, he, he1, he2]
+        · cases h
+
+/-- **nona_array_input_not_modified** (numpy array, every `edge`, the repaired code `df[:k].copy()`): the same five facts; the
+value is `nonaArrE` (the array path of the statement: cut by position) -/
+theorem nona_array_input_not_modified (edge : Option Int) (cols : List Col) (s : NStore (List Col))
+    (h : nonaArrS true edge cols = .ok s) :
+    s.cells[0]? = some ⟨cols, Option.none⟩ ∧ s.writes = [] ∧ s.ret ≠ 0 ∧ s.aliasesInput = false ∧
+      (nonaArrE edge cols).toOption = s.result := by
+  unfold nonaArrS at h
+  cases edge with
+  | none =>
+    simp only at h
+    cases h
+    simp [NStore.alloc, NStore.aliasesInput, reachesInput, NStore.result, nonaArrE, Except.toOption]
+  | some e =>
+    simp only at h
+    split at h
+    · cases h
+      rename_i he
+      simp [NStore.alloc, NStore.aliasesInput, reachesInput, NStore.result, nonaArrE, Except.toOption, he]
+    · split at h
+      · cases h
+        rename_i he he1
+        simp [NStore.alloc, NStore.aliasesInput, reachesInput, NStore.result, nonaArrE, Except.toOption, he, he1]
+      · split at h
+        · cases h
+          rename_i he he1 he2
+          simp [NStore.alloc, NStore.aliasesInput, reachesInput, NStore.result, nonaArrE, Except.toOption, he, he1, he2]
+        · cases h
+
+/-- the `.copy()` is what makes it true: without it (the code before repo fix C12-E2) `nona(array, edge = 1 / -1)` returns the
+basic slice, a VIEW of the argument - same value, but writing into the result writes into the caller's array -/
+theorem nona_array_view_without_copy (e : Int) (he : e = 1 ∨ e = -1) (cols : List Col) (s : NStore (List Col))
+    (hv : ((List.range (ofArr cols).nrows).filter (ofArr cols).rowValid).isEmpty = false)
+    (h : nonaArrS false (some e) cols = .ok s) : s.aliasesInput = true ∧ (nonaArrE (some e) cols).toOption = s.result := by
+  unfold nonaArrS at h
+  simp only [hv] at h
+  rcases he with rfl | rfl
+  · simp at h; cases h
+    simp [NStore.alloc, NStore.aliasesInput, reachesInput, NStore.result, nonaArrE, Except.toOption, hv]
+  · simp at h; cases h
+    simp [NStore.alloc, NStore.aliasesInput, reachesInput, NStore.result, nonaArrE, Except.toOption, hv]
+
+end NonaStore
+
+example : (FillAlias.nonaArrS false (some 1) [[some 1, Option.none, some 5, Option.none]]).toOption.map (·.aliasesInput) = some true ∧
+    (FillAlias.nonaArrS true (some 1) [[some 1, Option.none, some 5, Option.none]]).toOption.map (·.aliasesInput) = some false ∧
+    (FillAlias.nonaArrS true (some 1) [[some 1, Option.none, some 5, Option.none]]).toOption.bind (·.result) =
+      some [[some 1, Option.none, some 5]] := by decide
+
 end Pyg.Props.C12
